@@ -29,21 +29,28 @@ def escape_char(text):
 
 def unescape_char(text):
     assert isinstance(text, (str, bytes))
-    # NOTE: ORDER MATTERS!
+    # A single left-to-right pass: every escape sequence is decoded exactly
+    # once, so an escaped backslash never combines with the character that
+    # follows it.
     if isinstance(text, str):
-        return text.replace('\\N', '\\n')\
-                   .replace('\r\n', '\n')\
-                   .replace('\\n', '\n')\
-                   .replace('\\,', ',')\
-                   .replace('\\;', ';')\
-                   .replace('\\\\', '\\')
+        return _UNESCAPE.sub(_unescape_match, text.replace('\r\n', '\n'))
     elif isinstance(text, bytes):
-        return text.replace(b'\\N', b'\\n')\
-                   .replace(b'\r\n', b'\n')\
-                   .replace(b'\\n', b'\n')\
-                   .replace(b'\\,', b',')\
-                   .replace(b'\\;', b';')\
-                   .replace(b'\\\\', b'\\')
+        return _UNESCAPE_BYTES.sub(_unescape_match_bytes,
+                                   text.replace(b'\r\n', b'\n'))
+
+
+_UNESCAPE = re.compile(r'\\([\\;,nN])')
+_UNESCAPE_BYTES = re.compile(rb'\\([\\;,nN])')
+
+
+def _unescape_match(match):
+    char = match.group(1)
+    return '\n' if char in 'nN' else char
+
+
+def _unescape_match_bytes(match):
+    char = match.group(1)
+    return b'\n' if char in b'nN' else char
 
 
 def foldline(line, limit=75, fold_sep='\r\n '):
